@@ -1,4 +1,6 @@
 import Rink.Driver.Common
+import Rink.Model.Pretty
+import Rink.Driver.Digits
 import Std.Data.HashMap
 import Std.Data.HashSet
 /-! Driver: loads a dump of the real registry, then evaluates request lines on one session. -/
@@ -85,8 +87,24 @@ def fmtReply : Reply → String
   | .defn _ c v => s!"def {encName c} " ++ (match v with | some v => fmtNumber v | none => "none")
   | .conversion raw b names const _ _ =>
     s!"conv {fmtNumber raw} {fmtDim b.unit} {fmtNumeric const} {fmtNames names}"
-  | .convNone n _ _ => s!"convnone {fmtNumber n}"
+  | .convNone n _ _ _ => s!"convnone {fmtNumber n}"
   | .unitList _ parts => s!"list {fmtEntries parts}"
+
+def hexOpt (o : Option String) : String := match o with | some s => hex s | none => "-"
+
+def fmtParts (kind : String) (p : Pretty.Parts) : String :=
+  let raw := match p.rawValue with | some n => fmtNumber n | none => "none"
+  let ru := match p.rawUnit with | some d => fmtDim d | none => "none"
+  let rd := match p.rawDimensions with | some d => fmtDim d | none => "none"
+  s!"parts {kind} raw={raw} exact={hexOpt p.exact} approx={hexOpt p.approx} factor={hexOpt p.factor} div={hexOpt p.divfactor} unit={hexOpt p.unit} rawunit={ru} quantity={hexOpt p.quantity} dims={hexOpt p.dimensions} rawdims={rd}"
+
+def partsOfReply (reg : Registry) : Reply → Option String
+  | .number n => (Pretty.toParts Digits.sizeInBaseF reg n).map (fmtParts "number")
+  | .conversion raw b names const base digits =>
+    (Pretty.showConv Digits.sizeInBaseF reg raw b names const base digits).map (fmtParts "conv")
+  | .convNone n base digits _ =>
+    (Pretty.toPartsDigits Digits.sizeInBaseF reg n base digits).map (fmtParts "conv")
+  | _ => none
 
 /-- `str::trim` with the classifier's notion of whitespace -/
 def trim (ws : Char → Bool) (cs : List Char) : List Char :=
@@ -96,7 +114,7 @@ structure Sess where
   ctx : Ctx
   tz : Std.HashSet String
 
-def evalLine (s : Sess) (input alnum ws : String) : Sess × String :=
+def evalLineWith (parts : Bool) (s : Sess) (input alnum ws : String) : Sess × String :=
   let extraAl := parseSet alnum
   let extraWs := parseSet ws
   let cc : Lex.CharClass :=
@@ -106,7 +124,13 @@ def evalLine (s : Sess) (input alnum ws : String) : Sess × String :=
   let ts := Lex.lex cc cs
   let isTz := fun n => n != "GB" && s.tz.contains n
   let (r, ctx') := Eval.step s.ctx isTz ts
-  ({ s with ctx := ctx' }, fmtErr fmtReply r)
+  if parts then
+    match r with
+    | .ok rep => ({ s with ctx := ctx' }, match partsOfReply s.ctx.reg rep with | some t => t | none => "unsupported parts")
+    | _ => ({ s with ctx := ctx' }, fmtErr fmtReply r)
+  else ({ s with ctx := ctx' }, fmtErr fmtReply r)
+
+def evalLine := evalLineWith false
 
 partial def loop (h out : IO.FS.Stream) (s : Sess) : IO Unit := do
   let line ← h.getLine
@@ -114,6 +138,10 @@ partial def loop (h out : IO.FS.Stream) (s : Sess) : IO Unit := do
   match line.trimAscii.toString.splitOn " " with
   | ["eval", input, alnum, ws] =>
     let (s', o) := evalLine s input alnum ws
+    out.putStrLn o
+    loop h out s'
+  | ["evalp", input, alnum, ws] =>
+    let (s', o) := evalLineWith true s input alnum ws
     out.putStrLn o
     loop h out s'
   | ["name", n] =>
